@@ -37,7 +37,8 @@ Proof. unfold i32, i64, len_ok. lia. Qed.
 (* before the fix the same sum was computed in i32 *)
 Lemma last_index_i32_refuted : exists idx len, i32 idx /\ len_ok len /\ ~ i32 (len + idx - 1).
 Proof. exists 2147483647, 2. unfold i32, len_ok. repeat split; lia. Qed.
-(* the parser's `last - v` uses saturating_neg: always in range *)
+(* the parser's `last - v` used saturating_neg: always in range (after the fix it is PathParse.last_minus: i64, checked_neg,
+   i32::try_from — in range by PathRoundtrip.last_minus_i32) *)
 Definition saturating_neg32 (v : Z) : Z := if v =? -2147483648 then 2147483647 else - v.
 Lemma saturating_neg_in_range v : i32 v -> i32 (saturating_neg32 v).
 Proof. unfold i32, saturating_neg32. intros. destruct (v =? -2147483648) eqn:E; lia. Qed.
